@@ -249,6 +249,7 @@ type Field struct {
 // In case of duplicate environment variables, the last one in the list
 // takes precedence.
 func Load(ctx context.Context, wd string, env []string, tags string, patterns []string) (*Info, []error) {
+	defer verifFlush()
 	pkgs, errs := load(ctx, wd, env, tags, patterns)
 	if len(errs) > 0 {
 		return nil, errs
